@@ -403,6 +403,12 @@ func checkC07(c *Ctx) {
 		for _, use := range []string{"m(1)", "m(1, 2)", "m()", "m(m(1))", "x = m", "m.x = macro(a) {quote(1)}", `[m(1), m("s")]`, "func() {m(1)}()"} {
 			add("macro", fmt.Sprintf("m = macro(a) {%s}; %s", body, use))
 			add("macro", fmt.Sprintf("m = macro(a, b) {%s}; %s", body, use))
+			// an all caps (constant) macro name, defined again (same / other definition), rebound, deleted
+			mu := strings.ReplaceAll(use, "m", "MAC")
+			add("macro", fmt.Sprintf("MAC = macro(a) {%s}; %s", body, mu))
+			add("macro", fmt.Sprintf("MAC = macro(a) {%s}; MAC = macro(a) {%s}; %s", body, body, mu))
+			add("macro", fmt.Sprintf("MAC = macro(a) {%s}; MAC = macro(a, b) {quote(2)}; %s; MAC = 1; del(MAC); %s", body, mu, mu))
+			add("macro", fmt.Sprintf("m = macro(a) {%s}; m = macro(a) {quote(3)}; %s; f = func() {m = macro(b) {quote(4)}; %s}; f()", body, use, use))
 		}
 	}
 	// 2c. control values (break, continue, a returning if) in every value position, at top level, in a loop, in a function
